@@ -621,7 +621,11 @@ def run(run, tier, replay=None):
                 "untyped additionalProperties; multipart model property; parameter in path/query/header/cookie without and with a JSON body; raw-name pair). A case = one "
                 "(candidate, placement): the class / operation is generated in a document shared with other candidates and with the control name zq_neutral, executed in a "
                 "fresh interpreter (3 instances per class; 2 argument vectors x {_get_kwargs, sync_detailed, asyncio_detailed, sync} per operation), compared with the Coq "
-                "models (stage B) and with the control (stage C). Non-trivial = the candidate is not the control; distinct by (name, placement).")
+                "models (stage B) and with the control (stage C). In addition, for EVERY template identifier N the spellings _N, __N, N_, ' N', -N, N-, upper / title / capitalised / lower case "
+                "(build/gen_names.json `spellings`): utils.PythonIdentifier of every candidate and spelling is compared with Names.python_identifier in Coq on every run (all tiers); thorough: every "
+                "spelling x every regular placement; quick: every underscore-prefixed spelling and a quarter of the others in one model / query-with-body / path placement, and all placements for "
+                "spellings whose python name disagrees with the model. A spelling whose python name (implementation == model) is N generates N's code: its captures count as N's. "
+                "Non-trivial = the candidate is not the control; distinct by (name, placement).")
     t0 = time.time()
     with cf.ProcessPoolExecutor(max_workers=14) as ex:
         results = [x for part in ex.map(work, jobs) for x in part]
